@@ -140,6 +140,14 @@ func (exec *Executor) getArrayIndex(
 	found := newList()
 	res, err := exec.executeItem(ctx, node, value, found)
 	if res == statusFailed {
+		if err == nil {
+			// The error was suppressed; still report the failure so that the
+			// subscript is not mistaken for index 0.
+			err = fmt.Errorf(
+				"%w: jsonpath array subscript is not a single numeric value",
+				ErrVerbose,
+			)
+		}
 		return 0, err
 	}
 
